@@ -23,7 +23,7 @@ RULE_TEXT = ('runs = deterministic sweep over defect classes (15) x every varian
              'class, mode/command).')
 REACH_PROBES = ['class_syntax', 'class_unknown_instruction', 'class_undefined_symbol', 'class_defined_later',
                 'class_wrong_type', 'class_wrong_type_non_ascii_name', 'class_illegal_relativity', 'class_missing_home_file', 'class_missing_file_absolute_path', 'class_bad_integer',
-                'class_bad_integer_expression', 'class_bad_regex', 'class_act_syntax', 'class_act_defect', 'class_unknown_instruction_in_second_included_file', 'defect_phase_partly_in_included_file', 'sections_redeclared_or_reordered',
+                'class_bad_integer_expression', 'class_bad_regex', 'class_defect_inside_matcher_expression', 'class_act_syntax', 'class_act_defect', 'case_marked_as_expected_to_fail', 'class_unknown_instruction_in_second_included_file', 'defect_phase_partly_in_included_file', 'sections_redeclared_or_reordered',
                 'act_defect_command_line_actor', 'act_defect_file_actor', 'act_defect_source_actor', 'class_stub_validation',
                 'class_stub_symbols', 'class_suite_shared_instruction', 'class_none_symbol_cmd', 'last_line_of_cleanup', 'mode_normal', 'mode_keep',
                 'mode_act', 'cmd_symbol', 'cmd_symbol_name', 'control_ok']
@@ -80,6 +80,20 @@ DEFECTS = {
     'bad_integer': [('timeout = -1', ALLP), ('timeout = abc', ALLP), ('timeout = 1.5', ALLP),
                     ('exit-code == abc', ('assert',)), ('stdout num-lines == 1.5', ('assert',))],
     'bad_integer_expression': [('timeout = 1//0', ALLP), ('timeout = 5 % 0', ALLP), ('exit-code == 1//0', ('assert',))],
+    # a defect that is an operand of a matcher expression: under !, &&, ||, inside parentheses, under a quantifier, in the
+    # definition of a matcher symbol
+    'defect_inside_matcher_expression': [
+        ("stdout ! matches '('", ('assert',)), ("exit-code ! == abc", ('assert',)),
+        ("stdout ! equals -contents-of -rel-home nofile.txt", ('assert',)),
+        ("stdout every line : ! contents matches '('", ('assert',)),
+        ("stdout ( is-empty || ! matches '(' )", ('assert',)), ("stdout ( ! is-empty && matches '(' )", ('assert',)),
+        ("stdout -transformed-by filter ! contents matches '(' is-empty", ('assert',)),
+        # (the definition of a matcher symbol is not validated by itself - only where the symbol is used: a defective
+        # definition that nothing refers to is no defect of the case, so the variants define AND use the symbol)
+        ("def text-matcher BADM = ! matches '('\nstdout BADM", ('assert',)),
+        ("def line-matcher BADL = ! contents matches '('\nfile r2.txt = 'a' -transformed-by filter BADL", ALLP),
+        ("def integer-matcher BADI = ! == abc\nexit-code BADI", ('assert',)),
+        ("file r.txt = 'a' -transformed-by filter ! contents matches '('", ALLP)],
     'bad_regex': [("file r.txt = 'a' -transformed-by replace '(' x", ALLP),
                   ("file r.txt = 'a' -transformed-by filter contents matches '['", ALLP),
                   ("stdout matches '('", ('assert',))],
@@ -346,6 +360,9 @@ def build(seed, tier, case, spec, g, sweep):
             'control': control, 'procs': procs, 'faults': faults, 'sweep': sweep,
             'files': {'home/hp/sub/keep.txt': 'k', 'home/existing.txt': 'e',
                       'home/dangling.txt': {'symlink': 'no-such-target.txt'}}}
+    # the case may be marked as expected to fail: an invalid case is invalid all the same
+    if (int(seed[:2], 16) % 4 == 1) if sweep else (g.random() < 0.2):
+        plan['status'] = 'FAIL'
     if cls == 'unknown_instruction_in_second_included_file':
         plan['files']['home/inc-a.xly'] = 'def string FROM_A = a\n'
         plan['files']['home/inc-b.xly'] = 'def string FROM_B = b\n'   # (the control)
@@ -406,16 +423,16 @@ def execute(plan, scratch):
     w.populate(plan['files'])
     spec = plan['spec']
     # -- control: the undefected base must have effects in every phase
-    casegen.write_case(w, plan['control'])
+    casegen.write_case(w, plan['control'], plan.get('status'))
     ctl_plan = dict(plan, faults=[])
     sim0 = kernel.Sim(ctl_plan, w)
     with patches.installed(sim0):
         r0 = host.run_cli(sim0, ['t.case'], label='control')
     tags = [s['tag'] for s in sim0.spawns]
-    control_ok = (r0['exit'] == 0 and all(t in tags for t in ('m-setup', 'atc', 'm-ba', 'm-as', 'm-cl'))
+    control_ok = (r0['exit'] == (33 if plan.get('status') == 'FAIL' else 0) and all(t in tags for t in ('m-setup', 'atc', 'm-ba', 'm-as', 'm-cl'))
                   and len(sim0.sandboxes) == 1 and not w.tmp_entries())
     # -- the defective case
-    text = casegen.write_case(w, plan['case'])
+    text = casegen.write_case(w, plan['case'], plan.get('status'))
     w.populate(plan.get('files_case', {}))
     cmd = spec['cmd']
     argv = {'normal': ['t.case'], 'keep': ['--keep', 't.case'], 'act': ['--act', 't.case'],
@@ -440,6 +457,8 @@ def execute(plan, scratch):
         pr['defect_phase_partly_in_included_file'] = 1
     if lay_.get('split') or lay_.get('order'):
         pr['sections_redeclared_or_reordered'] = 1
+    if plan.get('status') == 'FAIL':
+        pr['case_marked_as_expected_to_fail'] = 1
     if spec['cls'] == 'act_defect':
         pr['act_defect_%s_actor' % ['command_line', 'file', 'source'][spec['variant'][0]]] = 1
     hist['probes'] = pr
